@@ -263,6 +263,55 @@ func c03Directed(c *core.Ctx) bool {
 			return false
 		}
 	}
+	// (c) a layout without a zone is read as time.Parse reads it (UTC), wherever the process happens to run
+	savedLocal := time.Local
+	time.Local = time.FixedZone("harness+5", 5*3600)
+	var tl time.Time
+	ll := z.Time(z.Time.Format("2006-01-02 15:04")).Parse("2024-03-10 12:30", &tl)
+	var tl2 time.Time
+	ll2 := z.Time(z.Time.Format(time.DateOnly)).Parse("2024-03-10", &tl2)
+	time.Local = savedLocal
+	c.Eval(2)
+	if len(ll) != 0 || len(ll2) != 0 || !tl.Equal(time.Date(2024, 3, 10, 12, 30, 0, 0, time.UTC)) || !tl2.Equal(time.Date(2024, 3, 10, 0, 0, 0, 0, time.UTC)) {
+		c.Violation("destination-is-not-documented-coercion|zone-less-layout-in-a-non-UTC-process", map[string]any{"process_zone": "UTC+5 (time.Local set by the harness)", "Time(Format(2006-01-02 15:04)).Parse(2024-03-10 12:30)": fmt.Sprint(tl.UTC()), "Time(Format(DateOnly)).Parse(2024-03-10)": fmt.Sprint(tl2.UTC()), "want": "the instants time.Parse gives: 12:30 UTC / 00:00 UTC"})
+		return false
+	}
+	// (d) a record given as a Go struct that holds a scalar where the schema expects a nested record: not coercible, so not a success
+	type flatIn struct {
+		Name    string
+		Address string
+		Tags    int
+	}
+	type addr struct {
+		City string
+		Zip  int
+	}
+	type outT struct {
+		Name    string
+		Address addr
+	}
+	var o outT
+	m := z.Struct(z.Schema{"Name": z.String(), "Address": z.Struct(z.Schema{"City": z.String().Default("unknown"), "Zip": z.Int()})}).Parse(flatIn{Name: "bob", Address: "12 Main St"}, &o)
+	c.Eval(1)
+	if len(m["Address"]) != 1 || m["Address"][0].Code != "coerce" {
+		c.Violation("coercible-or-not|scalar-for-a-nested-struct-in-a-struct-record", map[string]any{"schema": "{Name: String(), Address: Struct{City: Default(unknown), Zip: Int()}}", "input": "struct{Name: bob, Address: \"12 Main St\" (a string)}", "issues": fmt.Sprint(z.Issues.SanitizeMap(m)), "destination": fmt.Sprintf("%+v", o), "want": "one coerce issue at Address"})
+		return false
+	}
+	// (e) a Preprocess function declared to return `any` that returns a pointer: the wrapped schema gets what it points to
+	type person struct {
+		Name string
+		Tags []string
+	}
+	var pz person
+	pm := z.Struct(z.Schema{
+		"name": z.Preprocess(func(d any, ctx z.Ctx) (any, error) { s := fmt.Sprint(d) + "ert"; return &s, nil }, z.String()),
+		"tags": z.Preprocess(func(d any, ctx z.Ctx) (any, error) { l := strings.Split(fmt.Sprint(d), ","); return &l, nil }, z.Slice(z.String())),
+	}).Parse(map[string]any{"name": "Rob", "tags": "a,b,c"}, &pz)
+	c.Eval(1)
+	if len(pm) != 0 || pz.Name != "Robert" || fmt.Sprint(pz.Tags) != "[a b c]" {
+		c.Violation("destination-is-not-documented-coercion|preprocess-returning-a-pointer-as-any", map[string]any{"destination": fmt.Sprintf("%+v", pz), "issues": fmt.Sprint(z.Issues.SanitizeMap(pm)), "want": "{Name:Robert Tags:[a b c]}"})
+		return false
+	}
 	c.Count("directed_coercion_scenarios", 1)
 	return true
 }
